@@ -20,8 +20,15 @@ def sumRes (rs : List R) : R :=
   | [] => ResAlg.zero
   | r :: rest => r + sumRes rest
 
+/-- sum of the entries of an association list recorded for node `n` -/
+def sumOn (l : List (String × R)) (n : String) : R :=
+  match l with
+  | [] => ResAlg.zero
+  | (m, r) :: rest => if m = n then r + sumOn rest n else sumOn rest n
+
 structure CreateArgs (R : Type) where
   includes : List String := []          -- NodeFilter.Includes (filterNodes reads each)
+  noNodes : Bool := false               -- the node filter selects no node (ErrEmptyNodeMap)
   planOk : Bool := true
   plan : List (String × List R)
 
@@ -36,6 +43,7 @@ def allocNode (n : String) (rs : List R) : M R Unit := do
 def createCond (a : CreateArgs R) : M R Unit := do
   if a.includes.isEmpty then readStep "storeGetNodesByPod" ""
   else forEach a.includes (fun n => readStep "storeGetNode" n)
+  if a.noNodes then refuse
   step "walLog:allocate-workload" "" (walAdd "allocate-workload" "" 0)
   readStep "pluginGetDeployCapacity" ""
   readStep "storeGetDeployStatus" ""
@@ -55,7 +63,7 @@ def deployInsts (n : String) : List R → M R Unit
 def deployNode (n : String) (rs : List R) : M R Unit := do
   let ok ← attempt (readStep "storeGetNode" n)       -- doGetAndPrepareNode
   if ok then deployInsts n rs
-  else forEach rs (fun r => do noteFailed n r; emit ⟨n, 0, false⟩)
+  else forEach rs (fun r => do noteFailed n r; emit ⟨"", 0, false⟩)   -- anonymous failure messages
 
 /-- then step: `doDeployWorkloads`; fails iff some instance failed -/
 def createThen (a : CreateArgs R) : M R Unit := do
@@ -75,7 +83,7 @@ the failed instances of each node -/
 def createRollback (byCond : Bool) : M R Unit := do
   let ms ← getMS
   if byCond then forEach ms.allocd (fun p => giveBack p.1 p.2)
-  else forEach ms.failed (fun p => giveBack p.1 p.2)
+  else forEach (keysOf ms.failed) (fun n => giveBack n (sumOn ms.failed n))   -- one call per node
 
 /-- the body run on the worker pool; deferred calls in Go's reverse order -/
 def create (a : CreateArgs R) : M R Unit := do
@@ -87,11 +95,11 @@ def create (a : CreateArgs R) : M R Unit := do
     (some createRollback)
   let _ ← attempt condThen
   -- defer 3: commit the create-processing events that were logged
-  let s ← getSt
-  forEach (a.plan.filter (fun p => s.wal.contains ("create-processing", p.1, 0))) (fun p => do
+  let ms ← getMS
+  forEach (a.plan.filter (fun p => ms.tr.contains ("walLog:create-processing", p.1, true))) (fun p => do
     let _ ← attempt (step "walCommit:create-processing" p.1 (walRm "create-processing" p.1 0)); pure ())
   -- defer 2: commit the allocate-workload event if it was logged
-  if s.wal.contains ("allocate-workload", "", 0) then
+  if ms.tr.contains ("walLog:allocate-workload", "", true) then
     let _ ← attempt (step "walCommit:allocate-workload" "" (walRm "allocate-workload" "" 0))
   -- defer 1: delete the markers of every planned node (deployMap is set once the plan exists), close
   let ms ← getMS
